@@ -1,4 +1,4 @@
-import StoneVerif.Lemmas.RtWire
+import StoneVerif.Lemmas.RtWireMain
 /-!
 Property theorems for C05: the JSON produced for a valid value is the representation prescribed by
 docs/json_serializer.rst.
@@ -6,6 +6,11 @@ docs/json_serializer.rst.
 * `wire` (Model/Rt/Spec.lean) is the document as a function; the shape theorems below (`wire_struct_keys`,
   `wire_union_shape`, `wire_subtype_tag`, `wire_prims`) show that it says what the property text says.
 * `public_fields_table`: the table `encode_struct` walks is the list of public fields of the chain.
+* `encode_eq_wire` (headline): on every valid value in stored-normal form the code-following encoder succeeds
+  and returns exactly `wire`. It needs one fact beyond `envWF`: `envWFX` (Model/Rt/WFExtra.lean) — the field
+  table a class inherits is, field by field, the registered table of its ancestor. `envWF` compares the chains
+  by class and field *names* only, and with that alone the statement is false
+  (`encode_eq_wire_needs_chain`, witness `chainWitnessEnv`).
 -/
 namespace StoneVerif.C05
 open StoneVerif.Rt
@@ -80,5 +85,176 @@ theorem wire_prims (E : Ext) (env : Env) :
         .obj (kvs.map fun kx => (kx.1, wire E env vt kx.2))) := by
   refine ⟨?_, ?_, ?_, ?_, ?_, ?_, ?_, ?_, ?_⟩ <;> intros <;>
     simp [wire, wireList_eq_map, wireDict_strKeys]
+
+/-! ## The headline -/
+
+/-- HEADLINE. For a caller without permissions and no redaction, on every valid value in stored-normal form,
+`StoneToPythonPrimitiveSerializer.encode_sub` (model: `encode`) succeeds and produces exactly the
+representation json_serializer.rst prescribes (`wire`), whatever the `norm` flag of the enclosing container.
+
+`hchain : envWFX env = true` is the one hypothesis beyond the planned statement: every class of a struct's
+chain is registered and its registered fields are, field by field (name, validator, nullable / has-default /
+omitted-caller attributes), the first fields of the struct. Without it the statement is false of the model:
+see `encode_eq_wire_needs_chain` below.
+
+The statement as planned (false, kept for the record):
+```
+theorem encode_eq_wire (E : Ext) (env : Env) (hwf : envWF env = true) (t : PTy) (v : PyVal) (norm : Bool)
+    (htwf : tyWF env t = true) (hv : validB E env t v = true) (hn : normalB env t v = true) :
+    encode E env [] false norm t v = .ok (wire E env t v)
+``` -/
+theorem encode_eq_wire (E : Ext) (env : Env) (hwf : envWF env = true) (hchain : envWFX env = true)
+    (t : PTy) (v : PyVal) (norm : Bool)
+    (htwf : tyWF env t = true) (hv : validB E env t v = true) (hn : normalB env t v = true) :
+    encode E env [] false norm t v = .ok (wire E env t v) :=
+  encode_wire E env hwf hchain t v norm htwf hv hn
+
+/-- the same for the entry point `json_compat_obj_encode(data_type, obj)` -/
+theorem jsonCompatObjEncode_eq_wire (E : Ext) (env : Env) (hwf : envWF env = true) (hchain : envWFX env = true)
+    (t : PTy) (v : PyVal)
+    (htwf : tyWF env t = true) (hv : validB E env t v = true) (hn : normalB env t v = true) :
+    jsonCompatObjEncode E env [] false t v = .ok (wire E env t v) :=
+  encode_wire E env hwf hchain t v false htwf hv hn
+
+/-- the companion statements for the items of a list, the entries of a map and the slots of a struct -/
+theorem encode_parts_eq_wire (E : Ext) (env : Env) (hwf : envWF env = true) (hchain : envWFX env = true) :
+    (∀ t xs, tyWF env t = true → validList E env t xs = true → normalList env t xs = true →
+      encodeList E env [] false t xs = .ok (wireList E env t xs)) ∧
+    (∀ fl a b p vt kvs, fl.nullable = false → tyWF env vt = true →
+      validDict E env (.str fl a b p) vt kvs = true → normalDict env (.str fl a b p) vt kvs = true →
+      encodeDict E env [] false (.str fl a b p) vt kvs = .ok (wireDict E env vt kvs)) ∧
+    (∀ fields slots, (∀ f ∈ fields, tyWF env f.ty = true) → fields.all (fun f => attrHas f slots) = true →
+      validSlots E env fields slots = true → normalSlots env fields slots = true →
+      assembleStruct fields slots (encodeSlots E env [] false fields slots) =
+        .ok (pick fields (wireSlots E env fields slots))) := by
+  refine ⟨encodeList_wire E env hwf hchain, ?_, ?_⟩
+  · intro fl a b p vt kvs hfl
+    exact encodeDict_wire E env hwf hchain _ vt kvs (by simp [hfl])
+  · intro fields slots hty hall hv hn
+    rw [encodeSlots_wire E env hwf hchain fields slots hty hv hn]
+    exact assembleStruct_ok fields slots _ hall
+
+/-- What the serializer emits for a valid struct: an object with one key per set public field of the class, in
+declaration order. -/
+theorem encode_struct_keys (E : Ext) (env : Env) (hwf : envWF env = true) (hchain : envWFX env = true)
+    (fl : Flags) (cls c : String) (slots : List (String × PyVal)) (norm : Bool)
+    (htwf : tyWF env (.struct fl cls) = true) (hv : validB E env (.struct fl cls) (.struct c slots) = true)
+    (hn : normalB env (.struct fl cls) (.struct c slots) = true) :
+    ∃ kvs, encode E env [] false norm (.struct fl cls) (.struct c slots) = .ok (.obj kvs) ∧
+      kvs.map (·.1) = ((publicFields env cls).filter fun f => slotSet f.name slots).map (·.name) := by
+  obtain ⟨kvs, hw, hk⟩ := wire_struct_keys E env fl cls c slots
+  exact ⟨kvs, by rw [encode_eq_wire E env hwf hchain _ _ norm htwf hv hn, hw], hk⟩
+
+/-! ## The corner that `envWF` alone leaves open -/
+
+/-- an `Ext` for the concrete examples (none of them consults it) -/
+def exE : Ext where
+  fltLt := fun _ _ => false
+  fltIsNan := fun _ => false
+  fltIsInf := fun _ => false
+  fltOfInt := fun _ => none
+  patMatch := fun _ _ => true
+  b64enc := id
+  b64dec := fun _ => none
+  strftime := fun _ _ => ""
+  strptime := fun _ _ => none
+  md5 := id
+  reSearch := fun _ _ => none
+  strOfInt := fun _ => ""
+  strOfFlt := fun _ => ""
+
+def i64 : PTy := .int {} "Int64" (-9223372036854775808) 9223372036854775807
+
+def fld (n : String) (t : PTy) (nullable : Bool := false) (dflt : Option PyVal := none) : FieldDef :=
+  { name := n, ty := t, attrNullable := nullable, attrUserDefined := false, dflt := dflt, omitted := none }
+
+/-- `ns.A` is registered with a required field `x`, but the copy of `ns.A`'s level inside the chain of its
+subclass `ns.B` says `x` is nullable. `envWF` (names only) accepts this; no generated module looks like it. -/
+def chainWitnessEnv : Env :=
+  { structs := [
+      { cls := "ns.A", levels := [{ cls := "ns.A", fields := [fld "x" i64] }], subtypes := none, catchAll := false },
+      { cls := "ns.B", levels := [{ cls := "ns.A", fields := [fld "x" i64 (nullable := true)] },
+                                  { cls := "ns.B", fields := [] }], subtypes := none, catchAll := false }],
+    unions := [] }
+
+/-- FINDING (about the model's `envWF`, not about the Python): with `envWF` alone the planned statement fails.
+`B()` with nothing set is valid for `Struct(A)` by the table of its own class (where `x` is nullable), and
+the encoder, reading `A`'s table, reports a missing required field. `envWFX` is false of this environment. -/
+theorem encode_eq_wire_needs_chain :
+    envWF chainWitnessEnv = true ∧ envWFX chainWitnessEnv = false ∧
+    tyWF chainWitnessEnv (.struct {} "ns.A") = true ∧
+    validB exE chainWitnessEnv (.struct {} "ns.A") (.struct "ns.B" []) = true ∧
+    normalB chainWitnessEnv (.struct {} "ns.A") (.struct "ns.B" []) = true ∧
+    (encode exE chainWitnessEnv [] false false (.struct {} "ns.A") (.struct "ns.B" [])).isOk = false := by
+  decide +kernel
+
+/-! ## Non-vacuity: the examples of json_serializer.rst -/
+
+def lvA : Level := { cls := "ns.A", fields := [fld "w" i64] }
+
+/-- the specs of json_serializer.rst: `Coordinate`, `SurveyAnswer`, the enumerated-subtypes tree `A`/`B`/`C`,
+the unions `U` and `Infinity` -/
+def docEnv : Env :=
+  { structs := [
+      { cls := "ns.Coordinate", levels := [{ cls := "ns.Coordinate", fields := [fld "x" i64, fld "y" i64] }],
+        subtypes := none, catchAll := false },
+      { cls := "ns.SurveyAnswer", levels := [{ cls := "ns.SurveyAnswer", fields :=
+          [fld "age" i64, fld "name" (.str {} none none none) (dflt := some (.str "John Doe")),
+           fld "address" (.str { nullable := true } none none none) (nullable := true)] }],
+        subtypes := none, catchAll := false },
+      { cls := "ns.A", levels := [lvA], subtypes := some [(["b"], "ns.B", false), (["c"], "ns.C", false)],
+        catchAll := true },
+      { cls := "ns.B", levels := [lvA, { cls := "ns.B", fields := [fld "x" i64] }], subtypes := none,
+        catchAll := false },
+      { cls := "ns.C", levels := [lvA, { cls := "ns.C", fields := [fld "y" i64] }], subtypes := none,
+        catchAll := false }],
+    unions := [
+      { cls := "ns.U", levels := [{ cls := "ns.U", tags := [
+          { name := "singularity", ty := .void {}, omitted := none },
+          { name := "number", ty := i64, omitted := none },
+          { name := "coord", ty := .struct { nullable := true } "ns.Coordinate", omitted := none },
+          { name := "infinity", ty := .union {} "ns.Infinity", omitted := none }] }], catchAll := none },
+      { cls := "ns.Infinity", levels := [{ cls := "ns.Infinity", tags := [
+          { name := "positive", ty := .void {}, omitted := none },
+          { name := "negative", ty := .void {}, omitted := none }] }], catchAll := none }] }
+
+theorem docEnv_wf : envWF docEnv = true ∧ envWFX docEnv = true := by decide +kernel
+
+/-- "Serializing `A` when it contains a struct `B` (with values of 1 for each field)" -/
+example : encode exE docEnv [] false false (.tree {} "ns.A") (.struct "ns.B" [("x", .int 1), ("w", .int 1)]) =
+    .ok (.obj [(".tag", .str "b"), ("w", .int 1), ("x", .int 1)]) := by
+  rw [encode_eq_wire exE docEnv docEnv_wf.1 docEnv_wf.2 _ _ _ (by decide +kernel) (by decide +kernel)
+    (by decide +kernel)]
+  rfl
+
+/-- `SurveyAnswer` with only `age` set: the unset optional fields are omitted -/
+example : encode exE docEnv [] false false (.struct {} "ns.SurveyAnswer") (.struct "ns.SurveyAnswer" [("age", .int 28)]) =
+    .ok (.obj [("age", .int 28)]) := by
+  rw [encode_eq_wire exE docEnv docEnv_wf.1 docEnv_wf.2 _ _ _ (by decide +kernel) (by decide +kernel)
+    (by decide +kernel)]
+  rfl
+
+/-- a list of `U`: void tag, primitive member, flattened struct member, unset nullable member, nested union -/
+example : encode exE docEnv [] false false (.list {} (.union {} "ns.U") none none)
+      (.list [.union "ns.U" "singularity" .none, .union "ns.U" "number" (.int 42),
+              .union "ns.U" "coord" (.struct "ns.Coordinate" [("x", .int 1), ("y", .int 2)]),
+              .union "ns.U" "coord" .none,
+              .union "ns.U" "infinity" (.union "ns.Infinity" "positive" .none)]) =
+    .ok (.arr [.obj [(".tag", .str "singularity")],
+               .obj [(".tag", .str "number"), ("number", .int 42)],
+               .obj [(".tag", .str "coord"), ("x", .int 1), ("y", .int 2)],
+               .obj [(".tag", .str "coord")],
+               .obj [(".tag", .str "infinity"), ("infinity", .obj [(".tag", .str "positive")])]]) := by
+  rw [encode_eq_wire exE docEnv docEnv_wf.1 docEnv_wf.2 _ _ _ (by decide +kernel) (by decide +kernel)
+    (by decide +kernel)]
+  rfl
+
+/-- the hypotheses of `encode_struct_keys` are satisfiable; slot order does not matter, declaration order does -/
+example : ∃ kvs, encode exE docEnv [] false true (.struct {} "ns.SurveyAnswer")
+      (.struct "ns.SurveyAnswer" [("address", .str "x"), ("age", .int 28)]) = .ok (.obj kvs) ∧
+      kvs.map (·.1) = ["age", "address"] := by
+  obtain ⟨kvs, h, hk⟩ := encode_struct_keys exE docEnv docEnv_wf.1 docEnv_wf.2 {} "ns.SurveyAnswer" "ns.SurveyAnswer"
+    [("address", .str "x"), ("age", .int 28)] true (by decide +kernel) (by decide +kernel) (by decide +kernel)
+  exact ⟨kvs, h, hk.trans (by decide +kernel)⟩
 
 end StoneVerif.C05
